@@ -170,6 +170,33 @@ def _gen_http_headers(headers):
     return retval
 
 
+class _ClosingIterator(object):
+    """Hands out the chunks of the response body and runs ``on_close`` once:
+    when the body is exhausted or when the WSGI server calls ``close()``,
+    whichever comes first -- that is, after the body, not before it."""
+
+    def __init__(self, body, on_close):
+        self.__body = iter(body)
+        self.__on_close = on_close
+
+    def __iter__(self):
+        return self
+
+    def __next__(self):
+        try:
+            return next(self.__body)
+        except StopIteration:
+            self.close()
+            raise
+
+    next = __next__
+
+    def close(self):
+        on_close, self.__on_close = self.__on_close, None
+        if on_close is not None:
+            on_close()
+
+
 class WsgiTransportContext(HttpTransportContext):
     """The class that is used in the transport attribute of the
     :class:`WsgiMethodContext` class."""
@@ -406,7 +433,8 @@ class WsgiApplication(HttpBase):
             # Report but ignore any exceptions from auxiliary methods.
             logger.exception(e)
 
-        return chain(p_ctx.out_string, self.__finalize(p_ctx))
+        return _ClosingIterator(p_ctx.out_string,
+                                          lambda: self.__finalize(p_ctx))
 
     def handle_rpc(self, req_env, start_response):
         initial_ctx = WsgiMethodContext(self, req_env,
@@ -512,7 +540,8 @@ class WsgiApplication(HttpBase):
         start_response(p_ctx.transport.resp_code,
                                 _gen_http_headers(p_ctx.transport.resp_headers))
 
-        retval = chain(p_ctx.out_string, self.__finalize(p_ctx))
+        retval = _ClosingIterator(p_ctx.out_string,
+                                          lambda: self.__finalize(p_ctx))
 
         try:
             process_contexts(self, others, p_ctx, error=None)
